@@ -1,0 +1,6 @@
+//go:build !verif
+
+package internal
+
+// Gate is a no-op unless built with the verif tag.
+func Gate(string, ...interface{}) {}
